@@ -325,6 +325,8 @@ class Normaliser:
         for n in ast.walk(fn):
             if isinstance(n, (ast.Match, ast.IfExp)):
                 return True
+            if isinstance(n, ast.If) and isinstance(n.test, ast.Constant):
+                return True
             if isinstance(n, ast.For):
                 it = n.iter
                 if isinstance(it, ast.Call) and isinstance(it.func, ast.Attribute) and it.func.attr == 'get':
@@ -363,6 +365,7 @@ class Normaliser:
             c3 = self._inline_calls(fn, rel, mod, cls, stack, depth) if depth < MAX_DEPTH else False
             c4 = self._namedtuple_unpack(fn, mod)
             c5 = self._unroll_constant_tables(fn, mod, cls)
+            c5 = self._fold_constant_ifs(fn) or c5
             changed = changed or c1 or c2 or c3 or c4 or c5
             if not (c1 or c2 or c3 or c4 or c5):
                 break
@@ -630,6 +633,22 @@ class Normaliser:
                 cur = node
         return [ast.copy_location(head, m)] if head is not None else None
 
+    def _fold_constant_ifs(self, fn: ast.AST) -> bool:
+        """`if False: A else: B` (a defaulted flag parameter after inlining) is B"""
+        changed = False
+        for blk in list(self._blocks(fn)):
+            i = 0
+            while i < len(blk):
+                st = blk[i]
+                if isinstance(st, ast.If) and isinstance(st.test, ast.Constant) \
+                        and (st.test.value is None or isinstance(st.test.value, (bool, int, str))):
+                    live = st.body if st.test.value else st.orelse
+                    blk[i:i + 1] = live or [ast.copy_location(ast.Pass(), st)]
+                    changed = True
+                    continue
+                i += 1
+        return changed
+
     def _ifexp_to_if(self, fn: ast.AST) -> bool:
         """`x = a if c else b`, `return (s, e, 206 if ok else 416, h)`: an if/else of two copies of the
         statement, when the conditional expression is evaluated first and unconditionally"""
@@ -739,11 +758,21 @@ class Normaliser:
                     else:
                         merged.append(v)
                 node.values = merged
+                if len(merged) == 1 and isinstance(merged[0], ast.Constant) and isinstance(merged[0].value, str):
+                    changed = True
+                    return ast.copy_location(ast.Constant(value=merged[0].value), node)     # f'text' is 'text'
                 return node
 
             def visit_Call(inner, node: ast.Call):
                 nonlocal changed
                 inner.generic_visit(node)
+                # getattr(x, 'name') with a constant, identifier-like name is x.name
+                if isinstance(node.func, ast.Name) and node.func.id == 'getattr' and len(node.args) == 2 \
+                        and not node.keywords and isinstance(node.args[1], ast.Constant) \
+                        and isinstance(node.args[1].value, str) and node.args[1].value.isidentifier():
+                    changed = True
+                    return ast.copy_location(ast.Attribute(value=node.args[0], attr=node.args[1].value,
+                                                           ctx=ast.Load()), node)
                 if isinstance(node.func, ast.Attribute) and node.func.attr == 'format' \
                         and isinstance(node.func.value, ast.Constant) and isinstance(node.func.value.value, str) \
                         and not node.keywords and not any(isinstance(a, ast.Starred) for a in node.args):
@@ -795,6 +824,10 @@ class Normaliser:
             for j, st in enumerate(blk):
                 if isinstance(st, (ast.Assign, ast.AnnAssign, ast.Return, ast.Expr, ast.AugAssign)):
                     T().visit(st)
+                elif isinstance(st, (ast.If, ast.While)):
+                    st.test = T().visit(st.test)
+                elif isinstance(st, ast.For):
+                    st.iter = T().visit(st.iter)
         return changed
 
     # ---- inlining ---------------------------------------------------------------------------
@@ -1032,6 +1065,9 @@ class Normaliser:
             root, field = st, 'value'
             if isinstance(st.value, ast.Call) and self._callee_for(st.value, fn, rel, mod, cls, stack) is not None:
                 return None            # handled by _inline_stmt
+        elif isinstance(st, ast.For):
+            # for x in helper(a): the iterable is evaluated once, before the loop
+            root, field = st, 'iter'
         else:
             return None
 
